@@ -186,6 +186,7 @@ func (P *Program) verifyFunction(key string, opts VerifyOpts) (res *FnResult) {
 		}
 		c.obligeParts("postcondition", "post:"+cl.name(), cl.Tags, reaches, goals, fn.Pos(), cl.Text, poss...)
 	}
+	c.noHide = true
 	c.frameObligations("frame", c.entry, out, locs, oreach, top0, fn.Pos())
 	c.smoke("smoke:exit", oreach, fn.Pos())
 	return
